@@ -56,8 +56,11 @@ CFG = {
     "C03": dict(files=["Properties/C03.lean"], oracles=("C03",),
                 knobs=[(2, Knobs(envelope="asap", p_eff=0.6, sub_slot=0.8, p_team=0.35, p_alt=0.25)),
                        (1, Knobs(envelope="alap", p_eff=0.6, sub_slot=0.8, p_team=0.3, p_alt=0.2)),
-                       (1, Knobs(envelope="asap", p_eff=1.0, eff=["0.7"], sub_slot=0.8, p_team=0.7, p_alt=0.0, p_leave=0.5, p_limits=0.3, max_res=3)),
-                       (1, Knobs(envelope="alap", p_eff=0.0, sub_slot=0.8, p_team=0.7, p_alt=0.0, p_leave=0.5, p_tasklimits=0.3, max_res=3)),
+                       (1, Knobs(envelope="asap", p_eff=1.0, eff=["0.7"], sub_slot=0.8, p_team=0.7, p_alt=0.0, p_leave=0.5, p_limits=0.3, p_tasklimits=0.5, max_res=3)),
+                       (1, Knobs(envelope="alap", p_eff=0.0, sub_slot=0.8, p_team=0.7, p_alt=0.0, p_leave=0.5, p_tasklimits=0.5, max_res=3)),
+                       # teams under task / container limits whose room is not a multiple of the team size (the team gate)
+                       (1, Knobs(envelope="asap", p_eff=0.0, p_team=0.85, p_alt=0.0, p_tasklimits=0.8, p_container=0.6, p_limits=0.0,
+                                 max_res=3, max_tasks=6, big_effort=0.4)),
                        # alternatives under contention, walks that cross nights and leaves: the one-time choice of a candidate
                        (1, Knobs(envelope="alap", p_alt=0.7, p_team=0.0, big_effort=0.5, p_leave=0.5, max_res=3, max_tasks=6)),
                        (1, Knobs(envelope="asap", p_alt=0.7, p_team=0.0, big_effort=0.5, p_leave=0.5, p_tasklimits=0.3, max_res=3, max_tasks=6))],
